@@ -12,6 +12,14 @@ NOTE = ("trusted base: CPython ast front end, the vstat analyser (unit tests + s
         "(vstat/contracts.py) and the formula transcriptions (vstat/specsrc); value-level clauses listed as 'declined' in DESIGN.md 4 are NOT decided")
 
 CLAIMED = {
+    "C01": ("dataflow of force coordinates / design matrix / data / damping into the solver, configuration + normal form of the scaling undo, fit/predict shared state, SciPy point order, Trend monomial pairing",
+            "declined: the tolerance/conditioning statement and every numeric equality (solver accuracy)"),
+    "C02": ("end-to-end dataflow of weights into sample_weight, regressor/scaler configuration, stacking-order agreement, check_fit_input return contract",
+            "declined: optimality itself, weight-scale invariance, the zero-weight limit (scikit-learn's semantics)"),
+    "C04": ("package-wide flatten-order scan with positive control, ravel provenance of kernel arguments, output-shape plumbing, dtype provenance of every allocation, sibling agreement predict/jacobian",
+            "declined: permutation invariance, linearity in the data, pandas containers, round-off (relations between pairs of executions)"),
+    "C17": ("zone abstraction: exhaustive abstract interpretation of the modular longitude arithmetic over the finite partition of admissible (W, E) classes; dominance of range checks; normal-form agreement of bound and longitude transforms",
+            "declined: point-in-region equivalence enumerated over (W, E, longitude) classes; np.allclose read as exact equality; five seam classes are KNOWN FINDINGS (known_findings.json)"),
     # id: (technique, declined / extra note)
     "C03": ("rational normal forms of every kernel path vs transcribed docstring formulas; interval definedness; loop/block structure checks",
             "declined: SciPy's own results"),
